@@ -37,7 +37,7 @@ package webdav
 
 //@ -- ---------------------------------------------------------------------------------------
 //@ -- C03 / C17 / C02 / C01 / C04: the local file system backend over the abstract resource tree of
-//@ -- /verif/specs/os.spec (ghost fs, fc, fsroot). lnode(name) is the node a request path denotes.
+//@ -- /verif/specs/os.spec (ghost tree, data, fsroot). lnode(name) is the node a request path denotes.
 //@ spec served(fs LocalFileSystem) bool = fsroot == string(fs) && wfTree()
 //@ spec validName(name string) bool = !contains(name, "\x00") && hasPrefix(pclean(name), "/")
 //@ spec lnode(name string) $P = node(fjoin(fsroot, pclean(name)))
@@ -45,7 +45,7 @@ package webdav
 //@   requires R1: fsroot == string(fs) && !strHostPath(name)
 //@   ensures L1: err == nil <==> validName(name)
 //@   ensures L2: err == nil ==> p == fjoin(fsroot, pclean(name)) && confined(p)
-//@   ensures L3: err != nil ==> p == "" && httpCode(err) == 400 && !hostPath(err)
+//@   ensures L3: err != nil ==> p == "" && httpCode(err) == 400 && !hostPath(err) && !osIsExist(err)
 //@ func webdav.(LocalFileSystem).externalPath(fs, name) (p, err)
 //@   requires R1: fsroot == string(fs)
 //@   ensures X1: forall c string :: canonRooted(c) && name == fjoin(fsroot, c) ==> err == nil && p == (c == "/" ? "/." : c)
@@ -67,3 +67,27 @@ package webdav
 //@   ensures E5: (isExist(r) <==> isExist(err)) && (asPathErr(err) != nil ==> !osIsExist(r))
 //@   -- C17: the host path carried by a *PathError is stripped
 //@   ensures E6: hostPath(r) == (asPathErr(err) != nil ? (strHostPath(asPathErr(err).Op) || hostPath(asPathErr(err).Err)) : hostPath(err))
+
+//@ -- entity tag of a stored resource (C04): derived from the metadata of the node in the current tree
+//@ spec tagOf(n $P) string = hexOf(ns(fiModTime(statInfo(n, tree, data)))) + hexOf(fiSize(statInfo(n, tree, data)))
+//@ func webdav.(LocalFileSystem).Stat(fs, ctx, name) (fi, err)
+//@   requires R1: served(fs) && !strHostPath(name)
+//@   ensures S1: err == nil <==> validName(name) && !absent(lnode(name))
+//@   ensures S2: err == nil ==> fi != nil && fresh(fi) && fi.Path == name && (fi.IsDir <==> isDir(lnode(name))) && fi.ETag == tagOf(lnode(name)) && fi.ETag != ""
+//@   ensures S3: !validName(name) ==> httpCode(err) == 400
+//@   ensures S4: validName(name) && absent(lnode(name)) ==> httpCode(err) == 404
+//@   ensures S5: err != nil ==> fi == nil && !hostPath(err) && !osIsExist(err)
+//@ func webdav.(LocalFileSystem).Open(fs, ctx, name) (f, err)
+//@   requires R1: served(fs) && !strHostPath(name)
+//@   ensures O1: err == nil <==> validName(name) && !absent(lnode(name))
+//@   ensures O2: err == nil ==> f != nil
+//@   ensures O3: !validName(name) ==> httpCode(err) == 400 && !hostPath(err)
+//@ func webdav.(LocalFileSystem).Mkdir(fs, ctx, name) (err)
+//@   requires R1: served(fs) && !strHostPath(name)
+//@   ensures M1: err == nil <==> validName(name) && old(absent(lnode(name)) && isDir(parent(lnode(name))))
+//@   ensures M2: err == nil ==> tree == setKind(old(tree), lnode(name), 2) && data == old(data)
+//@   ensures M3: err != nil ==> tree == old(tree) && data == old(data)
+//@   ensures M4: !validName(name) ==> httpCode(err) == 400
+//@   ensures M5: validName(name) && !old(absent(lnode(name))) ==> httpCode(err) == 405
+//@   ensures M6: validName(name) && old(absent(lnode(name)) && !isDir(parent(lnode(name)))) ==> httpCode(err) == 404 || httpCode(err) == 409
+//@   ensures M7: err != nil ==> !hostPath(err)
